@@ -227,10 +227,9 @@ def input_rewriting(ctx):
     _ref(ctx, ctx.func(TL + ':suppress'), '''def suppress(x, tol=1e-8, clip=True):
     x = asarray(list(x))
     mask = abs(x) < tol
-    if not clip:
-        spread = sum(x[mask])/(len(mask)-sum(mask))
-        if x.dtype.kind in 'iub' and not mask.all() and spread % 1: x = x.astype(float)
-        x[mask==False] = (x + spread)[mask==False]
+    if not clip and x[mask].any() and not mask.all():
+        if x.dtype.kind in 'iub': x = x.astype(float)
+        x[mask==False] = (x + sum(x[mask])/(len(mask)-sum(mask)))[mask==False]
     x[mask] = 0.0
     return x.tolist()
 ''', 'suppress', 'entries with |x| < tol are zeroed (their sum spread over the others when not clipping)')
@@ -629,26 +628,42 @@ def _bool_atoms(node, out):
 
 @rule('C16.o', min_instances=3)
 def the_type_of_the_input_is_kept_only_if_it_holds_the_values(ctx):
-    """bounded and impose_at keep the caller's dtype when they can (integers stay integers for whole bounds / targets) - but "whole" is not "storable": int8 cannot hold 300, uint8 cannot hold -5, bool cannot hold 5, an integer cannot hold 1e19 or nan, a float cannot hold 1+2j; numpy wraps, truncates or raises on such a store, and the entry does not land on the bound / the pinned value. The working array is therefore widened (astype) whenever `_holds(<array>.dtype, <the values to be stored>)` is false [bounded: and the array is of integer kind; always when not clipping - draws are fractional], and `_holds` itself is the round trip `(values.astype(dtype) == values).all()` - nothing weaker (a test for whole numbers, a test of the kind only)"""
+    """bounded and impose_at keep the caller's dtype when they can (integers stay integers for whole bounds / targets) - but "whole" is not "storable": int8 cannot hold 300, uint8 cannot hold -5, bool cannot hold 5, an integer cannot hold 1e19 or nan, a float cannot hold 1+2j; numpy wraps, truncates or raises on such a store, and the entry does not land on the bound / the pinned value. The working array is therefore widened (astype) whenever `_holds(<array>.dtype, <the values to be stored>)` is false [bounded: always when not clipping - draws are fractional] - whatever the kind of the array (float16 cannot hold 1e5 either) - and `_holds` itself is the round trip `(values.astype(dtype) == values).all()`, a nan stored as a nan counting as unchanged - nothing weaker (a test for whole numbers, a test of the kind only)"""
     import itertools
     h = ctx.func(CN + ':_holds')
     hp = [a.arg for a in h.node.args.args]
     ctx.need(len(hp) == 2, '_holds: expected (dtype, values), found %s' % hp)
-    want = [T.term(ast.parse('(%s.astype(%s) == %s).all()' % (hp[1], hp[0], hp[1]), mode='eval').body), T.term(ast.parse('(%s == %s.astype(%s)).all()' % (hp[1], hp[1], hp[0]), mode='eval').body)]
+    S_ = '%s.astype(%s)' % (hp[1], hp[0])
+    V_ = hp[1]
+    # the plain round trip, or the round trip that takes a nan stored as a nan for unchanged (nan != nan)
+    forms = ['({S} == {V}).all()', '({V} == {S}).all()', '(({S} == {V}) | (({S} != {S}) & ({V} != {V}))).all()', '(({S} == {V}) | (({V} != {V}) & ({S} != {S}))).all()']
+    want = [T.term(ast.parse(f_.format(S=S_, V=V_), mode='eval').body) for f_ in forms]
     rets = [r for r in ast.walk(h.node) if isinstance(r, ast.Return)]
     ctx.need(rets, '_holds: no return statement')
+    hlocal = {}
+    for st in stmts_of(h.node):
+        if isinstance(st, ast.Assign) and len(st.targets) == 1 and isinstance(st.targets[0], ast.Name):
+            hlocal.setdefault(st.targets[0].id, []).append(st.value)
+
+    class _Subst(ast.NodeTransformer):
+        def visit_Name(self, node):
+            if node.id in hlocal and len(hlocal[node.id]) == 1 and node.id not in hp:
+                return self.visit(ast.parse(unparse(hlocal[node.id][0]), mode='eval').body)
+            return node
     bad = None
     for r in rets:
         v = r.value
         if isinstance(v, ast.Call) and isinstance(v.func, ast.Name) and v.func.id == 'bool' and len(v.args) == 1:
             v = v.args[0]
+        if v is not None:
+            v = ast.fix_missing_locations(_Subst().visit(ast.parse(unparse(v), mode='eval').body))
         if v is None or T.term(v) not in want:
             bad = r
     ctx.check(bad is None, '_holds#round-trip', 'True exactly when values.astype(dtype) == values everywhere',
               '_holds answers %s: a dtype is taken to hold values it cannot store (a whole number out of its range, a complex number, nan)' % (' '.join(unparse(bad.value).split())[:80] if bad is not None and bad.value is not None else 'None'),
               h, bad or h.node)
     n = 1
-    for anchor, valsrc, need_kind in ((CN + ':bounded', 'bounds', True), (CN + ':impose_at.dec.func', 'target', False)):
+    for anchor, valsrc, need_kind in ((CN + ':bounded', 'bounds', False), (CN + ':impose_at.dec.func', 'target', False)):
         f = ctx.func(anchor)
         params = set(f.args())
         made = {}
@@ -679,10 +694,14 @@ def the_type_of_the_input_is_kept_only_if_it_holds_the_values(ctx):
             H = []
             for k_, node in atoms.items():
                 if isinstance(node, ast.Call) and callee_text(node).split('.')[-1] == '_holds' and len(node.args) == 2 and ' '.join(unparse(node.args[0]).split()) == A + '.dtype':
-                    v = node.args[1]
-                    if isinstance(v, ast.Name) and len(bound.get(v.id, [])) == 1:
-                        v = bound[v.id][0]
-                    if valsrc in {x.id for x in ast.walk(v) if isinstance(x, ast.Name)}:
+                    # the second argument is (made from) the values to be stored: follow local names through their assignments
+                    seen, todo = set(), [node.args[1]]
+                    while todo:
+                        for x in ast.walk(todo.pop()):
+                            if isinstance(x, ast.Name) and x.id not in seen:
+                                seen.add(x.id)
+                                todo.extend(bound.get(x.id, []))
+                    if valsrc in seen:
                         H.append(k_)
             C = [k_ for k_ in atoms if k_ == 'clip']
             names = sorted(atoms)
@@ -691,14 +710,15 @@ def the_type_of_the_input_is_kept_only_if_it_holds_the_values(ctx):
                 env = dict(zip(names, vals))
                 widened = any(all(_bool_eval(test, env) == truth for test, truth, _ in guards_of(w, stop=f.node)) for w in wid)
                 holds = all(env[k_] for k_ in H) if H else False
-                needs = not holds or (bool(C) and not all(env[k_] for k_ in C)) if need_kind else not holds
+                # (when not clipping, bounded stores draws from inside the intervals: always fractions)
+                needs = not holds or (bool(C) and not all(env[k_] for k_ in C))
                 if need_kind and K:
                     needs = needs and all(env[k_] for k_ in K)
                 if needs and not widened:
                     miss = env
                     break
             n += 1
-            ctx.check(miss is None, '%s#%s' % (f.qualname, A), 'widened unless _holds(%s.dtype, <%s>)%s' % (A, valsrc, ' (integer kinds; always when not clipping)' if need_kind else ''),
+            ctx.check(miss is None, '%s#%s' % (f.qualname, A), 'widened unless _holds(%s.dtype, <%s>)%s' % (A, valsrc, ' (always when not clipping)' if C else ''),
                       '%s keeps the dtype of the caller\'s vector although it is not established that it stores the %s unchanged (%s): a bound / target outside the range of a short, unsigned or boolean type wraps or is truncated, nan / 1e19 / a complex target cannot be stored at all'
                       % (f.qualname, 'bounds' if need_kind else 'target', ', '.join('%s=%s' % (k_, v_) for k_, v_ in sorted((miss or {}).items()))[:120]), f, wid[0])
     ctx.need(n >= 3, 'expected the helper and the widenings of bounded and impose_at, found %d' % n)
